@@ -20,6 +20,13 @@ CHECKS = {
         note="Trusts the fake Pool's dispatch rule (in-order, chunksize 1, pickling) - validated against the real multiprocessing.Pool in the thorough tier; tasks of one map are assumed to touch disjoint files.",
         ref="DESIGN.md 3.2, 4 C05",
     ),
+    "C06": dict(
+        engine="IterUnorderedMPI+CreateMPI+CollectiveIO",
+        technique="TLC model checking (safety + liveness under weak fairness) of spec/IterUnorderedMPI.tla, CreateMPI.tla, CollectiveIO.tla on MPISem.tla; trace validation of the real library running on a fake mpi4py against IterUnorderedMPITrace/CreateMPITrace; replay of TLC counterexamples and simulated behaviours on the deterministic runtime",
+        text="TLC explores every interleaving (wildcard matches, eager vs rendezvous completion) of the iter_unordered protocol and of the MPI catalog-writer pipeline for world sizes 2..4(5), all max_workers, and proves termination, exactly-once execution and no record loss for the design; deviation configs reproduce the defects of the code as found. The real functions run on a deterministic fake mpi4py: their event logs must be behaviours of the specs (checked by TLC, incl. message class/argument/peer/mode), TLC behaviours are replayed into them, recorded collective skeletons are model-checked for all schedules, and the root's results of whole workloads are compared with a single-process reference under random schedules. Deadlock detection is exact.",
+        note="Trusts the fake mpi4py as an implementation of MPISem.tla (MPI-3.1 point-to-point ordering and wildcard semantics, non-synchronising bcast/gather); no real MPI is available in the sandbox. Ranks are cooperative threads.",
+        ref="DESIGN.md 3.1, 4 C06",
+    ),
 }
 
 NOT_YET = "machinery for this property is not built yet in this round (planned, see DESIGN.md section 10)"
